@@ -367,7 +367,7 @@ fn main() {
     rep.exhaustive(format!("Window iterators hann/rectangle/new for every n in 2..={}", nmax));
 
     // every (L, bin, hop)
-    let lmax = cli.t(24usize, 64usize);
+    let lmax = cli.t(24usize, 96usize);
     let mut triples = Vec::new();
     for l in 0..=lmax {
         for b in 2..=l + 2 {
@@ -427,7 +427,7 @@ fn main() {
     }
     // a few long inputs
     let mut rng = Rng::derive(cli.seed, &[201]);
-    for _ in 0..cli.t(20, 300) {
+    for _ in 0..cli.t(20, 5_000) {
         let l = 100 + rng.usize_below(3000);
         let b = 2 + rng.usize_below(l + 2);
         let h = 1 + rng.usize_below(l / 2 + 2);
